@@ -2,11 +2,12 @@
 // Plain map is one level key map. It contains keys like "lvl1.lvl2".
 package plainmap
 
-import "strings"
+import "encoding/json"
 
 // Any represent any type
 type Any interface{}
 
 func formatStringJSON(s string) string {
-	return "\"" + strings.Replace(s, "\"", "\\\"", -1) + "\""
+	out, _ := json.Marshal(s)
+	return string(out)
 }
